@@ -12,6 +12,7 @@ CONSTANTS
   Challenge = 0
   Precedence = 0
   MaxBlock = 15
+  Gates = {TRUE, FALSE}
   Faults = {"none", "waiter", "submit", "status"}
 INVARIANTS TypeOK SlotsInjective RelayBeforeTimeout RequestIsSlot ObservedNeverSubmits GateBlocksSubmission SingleWinner MonitoringOnlyRelay RelaySlotBeforeTimeoutBlock
 PROPERTIES NoSubmitAfterObserve NoSubmitBeforeSlot
